@@ -417,6 +417,159 @@ def refused_enter_obligations(repo, chk, rule):
         raise AnalysisError(f"probe.Probe._enter: only {n_acq} acquisitions recognised (tooling, overlay, registry expected)")
 
 
+def refused_exit_obligations(repo, chk, rule):
+    """Probe._exit: leaving the overlay is what refuses the deactivation of a probe that is not active (never entered: no token; already
+    left: a used token) -- nothing else is released on that path, or counts that this probe does not hold are given back (another
+    probe's function returns to its original code; a later probe starts from -1)."""
+    from ..callgraph import CallGraph
+    from ..cfg import CFG
+    from ..core import AnalysisError, norm
+    from ..pairing import classify_stmt, contextvars_of, node_probe
+    cg = CallGraph(repo)
+    ctxvars = contextvars_of(repo)
+    fi = repo.func("probe.Probe._exit")
+    base = cg.stmt_may_raise(fi)
+
+    def cls_of(g):
+        out = {}
+        for n in g.nodes:
+            pr = node_probe(n) if n.stmt is not None else None
+            out[n.id] = [c for c in (classify_stmt(pr, ctxvars, None) if pr is not None else []) if c[1] == "rel"]
+        return out
+    g0 = CFG(fi.node, base)
+    gates = [n.stmt for n in g0.nodes if any(res.startswith("context:") for res, k, d in cls_of(g0)[n.id])]
+    if len(gates) != 1:
+        raise AnalysisError(f"probe.Probe._exit: {len(gates)} statements leave the overlay (one expected)")
+    gate = gates[0]
+    g = CFG(fi.node, lambda st: st is gate or base(st))
+    cls = cls_of(g)
+    gate_nodes = [n for n in g.nodes if n.stmt is gate]
+    first = [s for n in gate_nodes for s, lab in n.succ if lab == "e"]
+    after_refusal = g.reach(first) | {s.id for s in first}
+    others = 0
+    seen = set()
+    for n in g.nodes:
+        for res, k, d in cls[n.id]:
+            if n.stmt is gate or (res, d) in seen:
+                continue
+            seen.add((res, d))
+            others += 1
+            hit = [m for m in g.nodes if m.stmt is n.stmt and m.id in after_refusal]
+            before = g.reach([g.entry], avoid=gate_nodes)
+            hit += [m for m in g.nodes if m.stmt is n.stmt and m.id in before]      # released before the overlay exit had its say
+            chk.ob(rule, f"probe.Probe._exit:a-refused-deactivation-releases-nothing[{res}]", not hit, fi.where,
+                   f"`{norm(n.stmt)[:60]}` does not run when `{norm(gate)[:50]}` refuses (probe never activated or already deactivated): "
+                   f"no {res} that this probe does not hold is given back" + (f" -- but it is reachable without / from the refusal (line {hit[0].line})" if hit else ""))
+    if others < 2:
+        raise AnalysisError(f"probe.Probe._exit: only {others} releases next to the overlay exit recognised (registry, tooling expected)")
+
+
+def variant_symbol_obligations(repo, chk, rule):
+    """Every code variant refers to its function through a symbol in the module globals (`with proceed(_ptera__N)` is the first thing a call
+    runs) and frames of a replaced variant may still be about to run it (another thread between call and first line; a generator not yet
+    started): the symbols only ever accumulate.  The only removals from a function's globals are transform()'s own scratch names
+    (the `#WRAP` maker and the def name it did not find there before)."""
+    import ast
+    from ..astq import expand
+    from ..core import AnalysisError, norm, walk_local
+    allowed, other = [], []
+    for q, fi in sorted(repo.functions.items()):
+        if not q.startswith(("transform.", "overlay.")):
+            continue
+        aliases = {t.id for n in walk_local(fi.node) if isinstance(n, ast.Assign) and norm(n.value).endswith(".__globals__")
+                   for t in n.targets if isinstance(t, ast.Name)}
+
+        def is_glb(e):
+            return norm(e).endswith(".__globals__") or isinstance(e, ast.Name) and e.id in aliases
+        for n in walk_local(fi.node):
+            key = None
+            if isinstance(n, ast.Call) and isinstance(n.func, ast.Attribute) and n.func.attr in ("pop", "popitem", "clear", "__delitem__") and is_glb(n.func.value):
+                key = n.args[0] if n.args else None
+                site = n
+            elif isinstance(n, ast.Delete) and any(isinstance(t, ast.Subscript) and is_glb(t.value) for t in n.targets):
+                key = next(t.slice for t in n.targets if isinstance(t, ast.Subscript) and is_glb(t.value))
+                site = n
+            else:
+                continue
+            kt = expand(key, fi.node) if key is not None else "<everything>"
+            scratch = q == "transform.transform" and key is not None and (
+                isinstance(key, ast.Constant) and isinstance(key.value, str) and key.value.startswith("#") or kt.endswith(".__name__"))
+            (allowed if scratch else other).append((q, kt, fi.where, site.lineno))
+    if len(allowed) < 2:
+        raise AnalysisError(f"transform.transform: only {len(allowed)} removals of its scratch names from the globals recognised (2 confirmed by hand)")
+    for q, kt, where, line in allowed:
+        chk.ob(rule, f"{q}:removes-only-its-scratch-name[{kt}]", True, where, f"`{kt}` is a name transform() itself put into the globals for the duration of the exec")
+    bad = sorted({(q, kt) for q, kt, w, l in other})
+    chk.ob(rule, "transform+overlay:variant-symbols-are-never-unbound", not other, "ptera/transform.py, ptera/overlay.py",
+           "nothing else is ever removed from a function's globals: the symbol a variant calls itself by stays bound while frames of that variant can still start"
+           + (f" -- {bad} (line {other[0][3]})" if other else ""))
+
+
+def reinstall_obligations(repo, chk, rule, why):
+    """SyncedStackedTransforms.push / pop: every change of the shared counters is followed by _apply on every normal path (no "nothing
+    changed" short cut decided on bookkeeping that keeps released names with count 0)."""
+    from ..cfg import CFG
+    for m in ("push", "pop"):
+        fi = repo.func(f"transform.SyncedStackedTransforms.{m}")
+        g = CFG(fi.node, lambda s_: False)
+        sup = g.find(lambda n: n.kind == "stmt" and f"super().{m}(" in n.text())
+        app = g.find(lambda n: n.kind == "stmt" and "self._apply(" in n.text())
+        ok = bool(sup) and bool(app) and all(not g.path_exists(s_, g.exit, avoid=app, labels=("n", "t", "f")) for s_ in sup)
+        chk.ob(rule, f"transform.SyncedStackedTransforms.{m}:variant-reinstalled-after-every-count-change", ok, fi.where,
+               f"after the counts changed, {m} installs the variant selected for the new counts on every normal path: {why}")
+
+
+def keep_pending_obligations(repo, chk, rule, why):
+    """HandlerCollection.proceed: a non-immediate selector is carried into the callee's collection whenever it is not immediate -- whether
+    or not it fits the function being entered, whatever its accumulator is."""
+    from ..astq import conds
+    from ..core import order
+    from .proceed_shape import proceed_shape
+    P = proceed_shape(repo)
+    ok = P.inner is not None and len(P.keeps) == 1 and conds(P.keeps[0], P.loop) == [f"not {P.sel}.immediate"]
+    chk.ob(rule, "overlay.HandlerCollection.proceed:keep-unless-immediate", ok, P.pr.where,
+           f"every non-immediate pending selector is carried into the callee unchanged, with its accumulator (conditions: {conds(P.keeps[0], P.loop) if P.keeps else 'no append'}): {why}")
+    ok = bool(P.keeps) and bool(P.pushes) and P.fit_lit not in conds(P.keeps[0], P.loop) and order(P.keeps[0]) < min(order(c) for c in P.pushes)
+    chk.ob(rule, "overlay.HandlerCollection.proceed:kept-before-and-regardless-of-fit", ok, P.pr.where,
+           "the selector is kept before its children are pushed, and independently of the test whether it fits this function")
+
+
+def eval_env_obligations(repo, chk, rule, why):
+    """selector._find_eval_env: the environment in which the names of a selector are looked up is the pile (locals, globals, builtins) of the
+    frame that wrote it -- three mappings, the last one ptera's own `__builtins__` (a dict in every imported module; a caller's
+    `__builtins__` global is the module object when the caller is __main__, and `name in <module>` is a TypeError, not a refusal)."""
+    import ast
+    from ..astq import expand
+    from ..core import norm, walk_local
+    fe = repo.func("selector._find_eval_env")
+    frame_names = sorted({n.value.id for n in walk_local(fe.node) if isinstance(n, ast.Attribute) and n.attr == "f_locals" and isinstance(n.value, ast.Name)})
+    frp = frame_names[0] if len(frame_names) == 1 else "<frame>"
+    piles = [n for n in walk_local(fe.node) if isinstance(n, ast.Call) and norm(n.func) == "DictPile"]
+
+    def src(a):
+        if isinstance(a, ast.Name):
+            st = [x for x in walk_local(fe.node) if isinstance(x, ast.Assign) and any(isinstance(t, ast.Name) and t.id == a.id for t in x.targets)]
+            if len(st) == 1:
+                return norm(st[0].value)
+        return expand(a, fe.node)
+    shape = [[src(a) for a in n.args] for n in piles]
+    chk.ob(rule, "selector._find_eval_env:names-resolve-as-in-the-writing-frame", len(piles) == 1 and not piles[0].keywords
+           and shape[0] == [f"{frp}.f_locals", f"{frp}.f_globals", "__builtins__"], fe.where,
+           f"the names of a selector are looked up in the locals, then the globals of the frame where it is written, then ptera's own builtins dict (found {shape}): {why}")
+
+
+def call_exit_order_obligations(repo, chk, rule, why):
+    """proceed.__exit__: the caller's collection is put back before the interactor closes its accumulators (= before Total handlers and
+    whatever their subscribers do -- deactivate a probe, activate another -- run)."""
+    from ..callgraph import CallGraph
+    from ..pairing import contextvars_of, raising_before_release
+    ctxvars = contextvars_of(repo)
+    ex = repo.func("overlay.proceed.__exit__")
+    early = raising_before_release(ex, f"ctxvar:{[c for c in ctxvars if 'current' in c][0]}", ctxvars, CallGraph(repo))
+    chk.ob(rule, "overlay.proceed.__exit__:nothing-may-raise-before-the-reset", not early, ex.where,
+           f"the call's own collection is replaced by the caller's before any close handler runs: {why}" + (f" -- runs first: {early}" if early else ""))
+
+
 def closure_reference_obligations(repo, chk, rule, H=None):
     """Every code variant of a function references every closure variable of the original (the generated prologue mentions each
     one, whether or not it is instrumented): otherwise `fn.__code__ = variant` is refused by Python (ValueError: requires a code
@@ -620,8 +773,9 @@ def call_aggregate_obligations(repo, chk, rule, props, why):
         iters = [n.iter for n in walk_local(fi.node) if isinstance(n, (ast.For, ast.comprehension))]
         cover = {"captures": 0, "children": 0}
         odd = []
+        from ..astq import expand
         for it in iters:
-            t = norm(it)
+            t = expand(it, fi.node)
             if t in ("self.captures + self.children", "self.children + self.captures"):
                 cover["captures"] += 1
                 cover["children"] += 1
